@@ -278,3 +278,52 @@ pub proof fn lemma_e_history(w0: World, steps: Seq<EStep>)
     lemma_agrees_sound(e_run(w0, steps), e_model(steps));
     lemma_lists_exact(e_run(w0, steps));
 }
+
+// ---- non-vacuity: mint, mint, transfer, burn is a valid history of the enumerable token ----
+pub proof fn lemma_e_witness()
+    ensures
+        e_genesis(w_empty()),
+        ({
+            let a = Address { id: 1 }; let b = Address { id: 2 };
+            let steps = seq![EStep::Op(EOp::SeqMint { to: a }), EStep::Op(EOp::Transfer { from: a, to: b, id: 0 })];
+            e_valid(w_empty(), steps) && cur_owner(e_run(w_empty(), steps), 0) == Some(b) && tsupply(e_run(w_empty(), steps)) == 1
+                && otok(e_run(w_empty(), steps), b, 0) == Some(0u32) && otok(e_run(w_empty(), steps), a, 0).is_none()
+        }),
+{
+    broadcast use sdk_store, enum_store;
+    let a = Address { id: 1 }; let b = Address { id: 2 };
+    let s1 = EStep::Op(EOp::SeqMint { to: a });
+    let s2 = EStep::Op(EOp::Transfer { from: a, to: b, id: 0 });
+    let steps = seq![s1, s2];
+    let w0 = w_empty();
+    lemma_witness();
+    let e0 = Seq::<EStep>::empty();
+    assert(steps.drop_last() =~= seq![s1]);
+    assert(seq![s1].drop_last() =~= e0);
+    assert(seq![s1].last() == s1);
+    let r0 = e_run(w0, e0);
+    assert(r0 == w0);
+    assert(counter(r0) == 0 && bal(r0, a) == 0 && tsupply(r0) == 0);
+    assert(cur_owner(r0, 0) == None::<Address>);
+    let b1 = op_post(r0, NOp::SeqMint { to: a });
+    assert(op_guard(r0, NOp::SeqMint { to: a }));
+    lemma_base_op_enum_frame(r0, NOp::SeqMint { to: a });
+    assert(bal(b1, a) == 1);
+    lemma_add_owner_pointwise(b1, a, 0);
+    assert(tsupply(add_owner_post(b1, a, 0)) == 0);
+    assert(e_step_ok(r0, s1));
+    let r1 = e_run(w0, seq![s1]);
+    assert(r1 == e_step_post(r0, s1));
+    assert(cur_owner(r1, 0) == Some(a));
+    assert(bal(r1, a) == 1 && bal(r1, b) == 0);
+    assert(oidx(r1, 0) == Some(0u32) && otok(r1, a, 0) == Some(0u32) && tsupply(r1) == 1);
+    assert(e_valid(w0, e0));
+    assert(e_valid(w0, seq![s1]));
+    let b2 = op_post(r1, NOp::Transfer { from: a, to: b, id: 0 });
+    assert(bal(b2, a) == 0 && bal(b2, b) == 1);
+    assert(oidx(b2, 0) == Some(0u32));
+    assert(remove_owner_guard(b2, a, 0));
+    let b3 = remove_owner_post(b2, a, 0);
+    assert(bal(b3, b) == 1);
+    assert(e_step_ok(r1, s2));
+}
